@@ -2,9 +2,11 @@ package props
 
 import (
 	"context"
+	"encoding/json"
 	"fmt"
 	"reflect"
 	"sort"
+	"sync"
 	"testing"
 
 	openfgav1 "github.com/openfga/api/proto/openfga/v1"
@@ -85,6 +87,8 @@ func checkC16(env *fw.Env, c C16Case) *fw.Failure {
 	modelID := sut.NewULID()
 	var stores [3]string
 	var worlds [3]gen.World
+	var models [3]*m.Model
+	twisted, probe, probeReq := twistModel(c.Model)
 	for i := 0; i < 3; i++ {
 		stores[i] = s.CreateStore(fmt.Sprintf("verif%d", i))
 		if i == 0 {
@@ -94,7 +98,11 @@ func checkC16(env *fw.Env, c C16Case) *fw.Failure {
 				return nil
 			}
 		}
-		if err := s.DS.WriteAuthorizationModel(ctx, stores[i], conv.Model(c.Model, modelID)); err != nil {
+		models[i] = c.Model
+		if i > 0 {
+			models[i] = twisted // same model id, different content
+		}
+		if err := s.DS.WriteAuthorizationModel(ctx, stores[i], conv.Model(models[i], modelID)); err != nil {
 			return fw.Failf("harness/model-write", "datastore WriteAuthorizationModel: %v", err)
 		}
 		// de-duplicate keys per store
@@ -106,9 +114,40 @@ func checkC16(env *fw.Env, c C16Case) *fw.Failure {
 				ts = append(ts, t)
 			}
 		}
-		worlds[i] = gen.World{Model: c.Model, Tuples: ts}
-		if err := s.WriteAPI(stores[i], modelID, ts); err != nil {
-			return fw.Failf("harness/valid-tuple-rejected", "store %d: Write rejected valid tuples: %v", i, err)
+		if i > 0 && probe != nil {
+			ts = append(ts, *probe)
+		}
+		worlds[i] = gen.World{Model: models[i], Tuples: ts}
+		// written through the datastore so that the typesystem cache stays cold for the burst below
+		if err := s.WriteRaw(stores[i], ts); err != nil {
+			return fw.Failf("harness/raw-write-failed", "store %d: %v", i, err)
+		}
+	}
+	// cold burst: the same request, same model id, all stores at once, before anything resolved the
+	// model (the stores' models differ, so a typesystem resolved for another store gives a wrong answer)
+	if probeReq != nil {
+		type res struct {
+			i   int
+			a   bool
+			err error
+		}
+		out := make(chan res, 12)
+		var wg sync.WaitGroup
+		for k := 0; k < 12; k++ {
+			wg.Add(1)
+			go func(i int) {
+				defer wg.Done()
+				a, err := checkWithConsistency(s, ctx, stores[i], modelID, *probeReq, true)
+				out <- res{i, a, err}
+			}(k % 3)
+		}
+		wg.Wait()
+		close(out)
+		for r := range out {
+			exp, unk := semkit.RefCheck(worlds[r.i], *probeReq)
+			if ok, why := semkit.CompareCheck(exp, unk, r.a, r.err); !ok && !semkit.IsTooComplex(r.err) {
+				return fw.Failf("", "cold concurrent burst, store %d of 3 (same model id, different models): Check(%s): %s\n%s", r.i, *probeReq, why, semkit.Describe(worlds[r.i]))
+			}
 		}
 	}
 	classes := append(semkit.ModelClasses(c.Model), "engine:"+c.Cfg.Engine)
@@ -165,7 +204,7 @@ func checkC16(env *fw.Env, c C16Case) *fw.Failure {
 				if m.UserKind(u) != "object" {
 					continue
 				}
-				ev := refsem.NewEval(c.Model, semkit.EvalTuples(worlds[i], nil), u, lu.Ctx, lu.Object)
+				ev := refsem.NewEval(worlds[i].Model, semkit.EvalTuples(worlds[i], nil), u, lu.Ctx, lu.Object)
 				if ev.Holds(lu.Object, lu.Relation) == refsem.False && !hasExclusion(c.Model) {
 					return fw.Failf("", "store %d: ListUsers(%+v) returned %s which does not hold the relation in this store\n%s", i, lu, u, semkit.Describe(worlds[i]))
 				}
@@ -247,6 +286,38 @@ func checkC16(env *fw.Env, c C16Case) *fw.Failure {
 	}
 	env.Rec.Case(c, nt, sample, semkit.SortedSet(classes)...)
 	return nil
+}
+
+// twistModel returns a variant of the model in which one directly assignable
+// relation R additionally includes a new relation "extra" (R: [..] or extra), a
+// tuple on extra and the request whose answer tells the two models apart.
+func twistModel(mo *m.Model) (*m.Model, *m.Tuple, *m.Request) {
+	b, _ := json.Marshal(mo)
+	var tw m.Model
+	_ = json.Unmarshal(b, &tw)
+	for ti := range tw.Types {
+		td := &tw.Types[ti]
+		for ri := range td.Relations {
+			r := &td.Relations[ri]
+			if r.Rewrite.Kind != m.This || tw.IsTupleset(td.Name, r.Name) {
+				continue
+			}
+			plainUser := false
+			for _, re := range r.Restr {
+				if re.Type == "user" && re.Kind() == "object" && re.Cond == "" {
+					plainUser = true
+				}
+			}
+			if !plainUser {
+				continue
+			}
+			r.Rewrite = &m.Rewrite{Kind: m.Union, Children: []*m.Rewrite{{Kind: m.This}, {Kind: m.Computed, Rel: "extra"}}}
+			td.Relations = append(td.Relations, m.Relation{Name: "extra", Rewrite: &m.Rewrite{Kind: m.This}, Restr: []m.Restriction{{Type: "user"}}})
+			obj := td.Name + ":0"
+			return &tw, &m.Tuple{Object: obj, Relation: "extra", User: "user:9"}, &m.Request{Object: obj, Relation: td.Relations[ri].Name, User: "user:9"}
+		}
+	}
+	return mo, nil, nil
 }
 
 func hasExclusion(mo *m.Model) bool {
